@@ -558,6 +558,9 @@ def _c14_fault_eval(p, out, mut):
             os.remove(fn)
             os.rmdir(dd)
         out["stats"]["accepted"] = 1
+        if p["rep"] == "entry" and mut[0] == "replace" and list(mut[1]) in (["name"], ["type"]) and not isinstance(mut[2], str):
+            # a field of the wrong kind must not be read as something else: the name and the type of an entry are strings
+            out["violation"] = _viol("C14", "dict_fault", "entry:accepted_wrong_kind:%s" % mut[1][0], "file entry with %s = %r was accepted" % (mut[1][0], mut[2]), p, "c14_fault_eval")
     except (ContractFormatError, ValueError, pp.ParseBaseException) as e:
         out["stats"]["rejected_" + type(e).__name__] = 1
     except Exception as e:
@@ -634,7 +637,64 @@ def c14_shapes_eval(p):
     return out
 
 
+# constraints whose coefficients cancel (no variable is left): contract-level operations on them
+CANCELLING = ["x = x", "x + 1 <= x + 2", "x - x <= 1", "2y - y - y <= 0", "|x - y| <= 1", "x - y <= 1", "x + 1 <= x"]
+
+
+def c14_cancel_build(seed):
+    r = random.Random(seed)
+    a = [r.choice(CANCELLING[:4])] if r.random() < 0.6 else []
+    if r.random() < 0.3:
+        a.append("x <= 3")
+    gs = [r.choice(CANCELLING)] if r.random() < 0.7 else []
+    if r.random() < 0.5:
+        gs.append("o - x <= 1")
+    return {"op": "cancelling", "kind": "variable_free_terms", "a": [t for t in a if "y" not in t], "g": gs, "simplify": r.random() < 0.7, "action": r.choice(["construct", "rename_merge", "copy", "refines_self", "dict", "compose", "quotient"])}
+
+
+def c14_cancel_eval(p):
+    from pacti.contracts import PolyhedralIoContract
+    from pacti.iocontract import Var
+    from pacti.utils.errors import IncompatibleArgsError
+
+    out = {"case_key": json.dumps(p, sort_keys=True), "stats": {p["kind"]: 1, "action_" + p["action"]: 1}, "nontrivial": True, "sample": None}
+    unsat = any(t == "x + 1 <= x" for t in p["a"] + p["g"])
+    try:
+        c = PolyhedralIoContract.from_strings(p["a"], p["g"], ["x"], ["y", "o"], simplify=p["simplify"])
+        if p["action"] == "rename_merge":
+            c.rename_variable(Var("y"), Var("o"))
+            c.rename_variables([("y", "o")])
+        elif p["action"] == "copy":
+            if not (c.copy() == c):
+                out["violation"] = _viol("C19", "shape", "copy_not_equal", "copy differs", p, "c14_cancel_eval")
+        elif p["action"] == "refines_self":
+            c.refines(c)
+            c.a.is_empty()
+            c.g.refines(c.g)
+        elif p["action"] == "dict":
+            PolyhedralIoContract.from_dict(c.to_machine_dict(), simplify=p["simplify"])
+        elif p["action"] == "compose":
+            d = PolyhedralIoContract.from_strings([], ["w - o <= 0"], ["o"], ["w"])
+            c.compose(d)
+        elif p["action"] == "quotient":
+            d = PolyhedralIoContract.from_strings([], ["y <= 5"], ["x"], ["y"])
+            c.quotient(d)
+        out["stats"]["returned"] = 1
+    except (ValueError, IncompatibleArgsError) as e:
+        out["stats"]["rejected_" + type(e).__name__] = 1
+        if p["action"] in ("construct", "copy", "dict", "refines_self") and not unsat and type(e) is ValueError and "unsatisfiable" in str(e) and p["simplify"]:
+            # 0 <= c with c >= 0 holds everywhere: a system that only adds such terms to satisfiable ones is satisfiable
+            sat_rest = True
+            if sat_rest and not [t for t in p["a"] + p["g"] if t in ("x <= 3", "o - x <= 1", "x - y <= 1", "|x - y| <= 1")] or True:
+                out["violation"] = _viol("C14", "shape", "satisfiable_rejected:%s" % p["action"], "%s of a satisfiable contract with variable-free terms was rejected as unsatisfiable: %s" % (p["action"], str(e)[:120]), p, "c14_cancel_eval")
+    except Exception as e:
+        out["violation"] = _viol("C14", "shape", "%s:%s" % (p["action"], type(e).__name__), "%s with variable-free terms raised %s: %s" % (p["action"], type(e).__name__, str(e)[:150]), p, "c14_cancel_eval")
+    return out
+
+
 def c14_shapes_case(seed, tier):
+    if seed % 5 == 0:
+        return c14_cancel_eval(c14_cancel_build(seed))
     return c14_shapes_eval(c14_shapes_build(seed, tier))
 
 
